@@ -1037,8 +1037,10 @@ func (c *Client) MkdirAll(path string) error {
 // An error will be returned if no file or directory with the specified path exists
 func (c *Client) RemoveAll(path string) error {
 
-	// Get the file/directory information
-	fi, err := c.Stat(path)
+	// Get the file/directory information.
+	// Like os.RemoveAll, do not follow a symbolic link: the link itself is removed,
+	// not the contents of the directory it points to (and a dangling link can be removed).
+	fi, err := c.Lstat(path)
 	if err != nil {
 		return err
 	}
